@@ -20,7 +20,9 @@ RULE = ("caption sets of 1-5 captions, 1-4 lines each of 1-80 characters over th
         "decoder: one caption per input caption, rows <= 32 columns, row breaks only at spaces / "
         "after hyphens / inside tokens longer than 32, lines do not overlap in time, caption "
         "visible within three frames of its start; SCCReader on the output gives the same "
-        "captions. Non-trivial: a line longer than 32 characters or >= 2 captions.")
+        "captions. Non-trivial: a line longer than 32 characters or >= 2 captions. "
+        'A caption text may be repeated inside a set, and the writer object may have written '
+        'the same set before. ')
 ASSUMPTIONS = [
     "a row break after a hyphen is a legitimate line-break opportunity (textwrap semantics)",
     "three frames = 3 * 1001/30000 s; the display instant is the first EOC word of the pair",
